@@ -25,17 +25,21 @@ def ofBe : List Nat → Nat
   | [] => 0
   | b :: bs => b * 256 ^ bs.length + ofBe bs
 
+/-- fuel-indexed worker of `extLen` (structural recursion: nothing here is defined by
+    well-founded recursion, which the kernel cannot unfold cheaply) -/
+def extLenAux : Nat → Nat → Nat
+  | 0, _ => 1
+  | f + 1, v => if v < 256 then 1 else 1 + extLenAux f (v / 256)
+
 /-- number of bytes needed for `v` (the `while ((v >>= 8) != 0) width++` loop), 1 for 0 -/
-def extLen (v : Nat) : Nat :=
-  if v < 256 then 1 else 1 + extLen (v / 256)
-termination_by v
-decreasing_by omega
+def extLen (v : Nat) : Nat := extLenAux v v
+
+def len7Aux : Nat → Nat → Nat
+  | 0, _ => 1
+  | f + 1, v => if v < 128 then 1 else 1 + len7Aux f (v / 128)
 
 /-- number of base-128 digits of `v` (the `while (v >>= 7) i++` loop), 1 for 0 -/
-def len7 (v : Nat) : Nat :=
-  if v < 128 then 1 else 1 + len7 (v / 128)
-termination_by v
-decreasing_by omega
+def len7 (v : Nat) : Nat := len7Aux v v
 
 /-- exactly the first `k` elements, or `none` when the list is shorter (a read past the buffer) -/
 def takeExact (k : Nat) (bs : List Nat) : Option (List Nat) :=
